@@ -1742,13 +1742,19 @@ func (c *glCtx) rangeStmt(x *ast.RangeStmt, rest []ast.Stmt, d int) string {
 	}
 	coll, cty := c.expr(x.X)
 	elemTy := ""
+	mapKeyTy := ""
 	switch {
 	case cty == "string":
 		elemTy = "rune"
 	case strings.HasPrefix(cty, "[]"):
 		elemTy = cty[2:]
+	case strings.HasPrefix(cty, "map[") && strings.Contains(cty, "]"):
+		// a map is ranged over as a list of (key, value) pairs in SOME order (Go's order is unspecified: a theorem about
+		// the translation quantifies over every list, hence over every order)
+		mapKeyTy = normInt(cty[4:strings.Index(cty, "]")])
+		elemTy = cty[strings.Index(cty, "]")+1:]
 	default:
-		c.fail(x, "range over a value of type %q (only slices and strings)", cty)
+		c.fail(x, "range over a value of type %q (only slices, maps and strings)", cty)
 	}
 	key, val := "_", "_"
 	if id, ok := x.Key.(*ast.Ident); ok && x.Key != nil {
@@ -1774,7 +1780,11 @@ func (c *glCtx) rangeStmt(x *ast.RangeStmt, rest []ast.Stmt, d int) string {
 	}
 	c.push()
 	if key != "_" {
-		c.declare(key, "int")
+		if mapKeyTy != "" {
+			c.declare(key, mapKeyTy)
+		} else {
+			c.declare(key, "int")
+		}
 	}
 	if val != "_" {
 		c.declare(val, elemTy)
@@ -1782,6 +1792,17 @@ func (c *glCtx) rangeStmt(x *ast.RangeStmt, rest []ast.Stmt, d int) string {
 	body := c.loopBody(x.Body.List, state, d+2)
 	c.pop()
 	var loop string
+	if mapKeyTy != "" {
+		k, v := "_", "_"
+		if key != "_" {
+			k = leanIdent(key)
+		}
+		if val != "_" {
+			v = leanIdent(val)
+		}
+		loop = "KM.Go.forRange " + coll + " " + tuple(state) + " (fun kv_ st => match kv_, st with" + ind(d+1) + "| (" + k + ", " + v + "), " + tuple(state) + " =>" + ind(d+2) + body + ")"
+		return c.afterLoop(loop, state, rest, d)
+	}
 	if key != "_" {
 		if c.t.natInts {
 			c.fail(x, "slice index in a function whose ints are Nat")
@@ -1938,6 +1959,17 @@ func (c *glCtx) block(fd *ast.FuncDecl) string {
 		if c.t.traceLean != "" {
 			c.declare("trace_", "[]effect")
 			pre = "let trace_ := ([] : List " + c.t.traceLean + ");" + ind(1)
+		}
+		{
+			var lnames []string
+			for n := range c.t.locals {
+				lnames = append(lnames, n)
+			}
+			sort.Strings(lnames)
+			for _, n := range lnames {
+				c.declare(n, c.t.locals[n])
+				pre += "let " + leanIdent(n) + " := " + c.zero(fd, c.t.locals[n]) + ";" + ind(1)
+			}
 		}
 		body := c.stmts(append([]ast.Stmt{}, fd.Body.List[from:]...), 1)
 		return "def " + c.t.name + " " + c.t.binders + " : " + c.t.retLean + " :=\n  " + pre + body + "\n"
